@@ -42,6 +42,19 @@ CLAIMED["C04"] = {
     "technique": _T + ": guard extraction + interval algebra vs documented table, dominance of the check over entry points, who-may-construct on checked types",
 }
 
+CLAIMED["C20"] = {
+    "text": "Decides, for all hash seeds, thread counts and schedules at once: every iteration over a HashMap/HashSet in lib code "
+            "(and every call of a workspace function that hands hash order to its caller) reaches only order-insensitive "
+            "consumers (integer count/sum, all/any, value min/max, keyed or per-entry updates, collection into hash/b-tree "
+            "containers, a sort that is total on the unique key, an arg-extremum whose comparator falls back on the key); no "
+            "entropy source is called outside the exclusions the property names; every RNG is seeded from a literal or a "
+            "caller-supplied seed; every rayon construct writes only through its own per-element parameters and performs no "
+            "parallel float reduction. Not decided: floating-point identity across machines, third-party internals.",
+    "design_ref": "DESIGN.md section 4, C20",
+    "note": "Trusted: rustc resolution/typeck, the fact dump; third-party crates draw entropy only through the listed APIs. Allow-list entries are single symbols with a reason (rules/c20.py).",
+    "technique": _T + ": order/entropy/schedule taint classification of every unordered source to its consumer",
+}
+
 NOT_APPLICABLE = {
     "C05": "every clause equates a returned number with a textbook formula over unbounded inputs; no pairing/ordering/agreement structure is necessary for a wrong value, and a frozen-formula matcher would fire on any algebraic refactor (DESIGN.md section 5)",
     "C06": "kernel entry values, symmetry, PSD-ness, dense/sparse agreement and the merge-replay stop rule are relations between computed floating-point values; no sound static argument in reach bounds them (the hash-order cluster numbering in the same file is decided under C20)",
